@@ -141,13 +141,14 @@ def partial_binding(p):
 class Canon:
   """One canonicalisation run (keeps the numbering memo and a pin list)."""
 
-  def __init__(self, mode='cfg-exact', lossless=True, partial_defaults=False):
+  def __init__(self, mode='cfg-exact', lossless=True, partial_defaults=False, sharing=True):
     assert mode in ('cfg-exact', 'cfg-defaults', 'built', 'frame')
     self.mode = mode
     self.lossless = lossless
     self.partial_defaults = partial_defaults
     self.memo = {}
     self.pins = []
+    self.sharing = sharing      # False: tree form (every reference expanded; acyclic only)
 
   def tag(self, x):
     n = self.memo[id(x)] = len(self.memo)
@@ -157,9 +158,9 @@ class Canon:
   def go(self, x):
     if is_value(x):
       return leaf(x, self.lossless)
-    if id(x) in self.memo:
+    if self.sharing and id(x) in self.memo:
       return ('ref', self.memo[id(x)])
-    tag = self.tag(x)
+    tag = self.tag(x) if self.sharing else 0
     if isinstance(x, Buildable):
       return self.buildable(x, tag)
     if isinstance(x, dict):
